@@ -834,7 +834,7 @@ func propC15(r *Run, w *World) {
 						continue
 					}
 					key := fmt.Sprintf("stringCache.%s %s in %s", fieldName(fv), a.Kind, fnName(a.Fn))
-					held := li.Held(a.Instr)[class]
+					held := li.HeldFor(a.Instr, class, a.Kind)
 					isCtor := a.Fn.Name() == "NewUserCache" || a.Fn.Name() == "NewGroupCache"
 					switch {
 					case held:
